@@ -698,3 +698,70 @@ FUNCTIONS += [
         ret_rules=[(r'^this$', 'list')],
     ),
 ]
+
+# ----------------------------------------------------------------------------------------------
+# small state-changing functions: call limits (C03), sequence registration (C05), the reporter and tracer slots (C16, C17)
+
+FUNCTIONS += [
+    dict(
+        name='set_limits', cxx='sequence_handler_base::set_limits', file=MOCK, module='SetLimits',
+        header=r'\n\s*set_limits\(size_t L, size_t H\)\s*noexcept',
+        lean_sig='(L H : Nat) (lim0 : Nat × Nat) : Nat × Nat',
+        prologue=['let mut min_calls := lim0.1', 'let mut max_calls := lim0.2'], epilogue='return (min_calls, max_calls)',
+        vars={'L': 'L', 'H': 'H', 'min_calls': 'min_calls', 'max_calls': 'max_calls'},
+        stmt_ignore=IGNORE_HOOK,
+    ),
+    dict(
+        name='runtime_times', cxx='runtime_times::action', file=MOCK, module='RuntimeTimes', imports=['SetLimits'],
+        header=r'action\(call_modifier<Matcher, modifier_tag, Parent>&&\s*m,\s*rt_multiplicity bounds\)',
+        # `throw std::logic_error{…};` leaves the function; the expectation under construction is owned by `m` and dies with it
+        pre=[(r'throw\s+std::logic_error\s*\{[^}]*\}\s*;', 'return THROW_LOGIC_ERROR;')],
+        lean_sig='(low high : Nat) (lim0 : Nat × Nat) : Option (Nat × Nat)',
+        prologue=['let mut lim := lim0'], epilogue='return some lim',
+        decl_ignore=LOCK_DECL, stmt_ignore=[r'^static_assert\(.*\)$'],
+        expr_rules=[(r'^bounds\.high < bounds\.low$', '(high < low)')],
+        stmt_rules=[(r'^m\.matcher->sequences->set_limits\(bounds\.low, bounds\.high\)$', 'lim := set_limits low high lim')],
+        ret_rules=[(r'^THROW_LOGIC_ERROR$', 'none'), (r'^std::move\(m\)\.matcher$', 'some lim')],
+    ),
+    dict(
+        name='add_last', cxx='sequence_type::add_last', file=SEQ, module='AddLast',
+        header=r'sequence_type::add_last\(\s*sequence_matcher\s*\*\s*m\)\s*noexcept',
+        lean_sig='{α : Type} (m : α) (matchers0 : List α) : List α',
+        prologue=['let mut matchers := matchers0'], epilogue='return matchers',
+        vars={'m': 'm'},
+        stmt_rules=[(r'^matchers\.push_back\(m\)$', 'matchers := matchers ++ [m]')],
+    ),
+    dict(
+        name='add_retired', cxx='sequence_type::add_retired', file=SEQ, module='AddRetired',
+        header=r'sequence_type::add_retired\(\s*sequence_matcher\s*\*\s*m\)\s*noexcept',
+        lean_sig='{α : Type} (m : α) (retired0 : List α) : List α',
+        prologue=['let mut retired_matchers := retired0'], epilogue='return retired_matchers',
+        vars={'m': 'm'},
+        stmt_rules=[(r'^retired_matchers\.push_back\(m\)$', 'retired_matchers := retired_matchers ++ [m]')],
+    ),
+    dict(
+        name='set_tracer', cxx='trompeloeil::set_tracer', file=MOCK, module='SetTracer',
+        header=r'\n\s*set_tracer\(\s*tracer\s*\*\s*obj\)\s*noexcept',
+        lean_sig='{τ : Type} (obj : Option τ) (cur0 : Option τ) : Option τ × Option τ',
+        vars={'obj': 'obj'},
+        decl_rules=[(r'^auto & ptr = tracer_obj\(\)$', 'let mut ptr := cur0')],
+        ret_rules=[(r'^rv$', '(rv, ptr)')],
+    ),
+    dict(
+        name='set_reporter1', cxx='trompeloeil::set_reporter(reporter_func)', file=MOCK, module='SetReporter1',
+        header=r'\n\s*set_reporter\(\s*reporter_func f\)',
+        lean_sig='{ρ : Type} (f : ρ) (rep0 : ρ) : ρ × ρ',
+        # (what is returned, what is installed afterwards)
+        ret_rules=[(r'^detail::exchange\(reporter_obj\(\), std::move\(f\)\)$', '(rep0, f)')],
+    ),
+    dict(
+        name='set_reporter2', cxx='trompeloeil::set_reporter(reporter_func, ok_reporter_func)', file=MOCK, module='SetReporter2',
+        imports=['SetReporter1'],
+        header=r'\n\s*set_reporter\(\s*reporter_func rf,\s*ok_reporter_func orf\)',
+        pre=[(r'(?s)return\s*\{(.*)\}\s*;', r'return PAIR(\1);')],
+        lean_sig='{ρ κ : Type} (rf : ρ) (orf : κ) (rep0 : ρ) (ok0 : κ) : (ρ × κ) × (ρ × κ)',
+        # ((returned pair), (installed afterwards)); the first component goes through the one-argument overload
+        ret_rules=[(r'^PAIR\(set_reporter\(std::move\(rf\)\), detail::exchange\(ok_reporter_obj\(\), std::move\(orf\)\)\)$',
+                    '(((set_reporter1 rf rep0).1, ok0), ((set_reporter1 rf rep0).2, orf))')],
+    ),
+]
